@@ -73,10 +73,20 @@ package ice
 // connection is closed, the mux forgets it — its ufrag registration and every
 // address binding it still owns.
 //@ func (*UDPMuxDefault).GetConn$1
-//@   props C12
+//@   props C12 C13
 //@   requires m.connsIPv4 != nil && m.connsIPv6 != nil && m.addressMap != nil && muxedConn != nil
 //@   ensures closed-conn-keeps-no-address-binding: forall i int :: 0 <= i && i < len(muxedConn.addresses) ==> !(has(m.addressMap, muxedConn.addresses[i]) && m.addressMap[muxedConn.addresses[i]] == muxedConn)
-//@   ensures closed-conn-is-unregistered: !has(m.connsIPv4, ufrag) && !has(m.connsIPv6, ufrag)
+//@   ensures closed-conn-is-unregistered: !(has(m.connsIPv4, ufrag) && m.connsIPv4[ufrag] == muxedConn) && !(has(m.connsIPv6, ufrag) && m.connsIPv6[ufrag] == muxedConn)
+//@   ensures C12 C13 another-connection-registered-under-the-ufrag-stays-v4: old(has(m.connsIPv4, ufrag) && m.connsIPv4[ufrag] != muxedConn) ==> has(m.connsIPv4, ufrag) && m.connsIPv4[ufrag] == old(m.connsIPv4[ufrag])
+//@   ensures C12 C13 another-connection-registered-under-the-ufrag-stays-v6: old(has(m.connsIPv6, ufrag) && m.connsIPv6[ufrag] != muxedConn) ==> has(m.connsIPv6, ufrag) && m.connsIPv6[ufrag] == old(m.connsIPv6[ufrag])
+
+//@ func (*UDPMuxDefault).removeConn
+//@   props C12 C13
+//@   requires m.connsIPv4 != nil && m.connsIPv6 != nil
+//@   modifies m.connsIPv4[*], m.connsIPv6[*], m.mu
+//@   ensures this-connection-is-unregistered: !(has(m.connsIPv4, ufrag) && m.connsIPv4[ufrag] == conn) && !(has(m.connsIPv6, ufrag) && m.connsIPv6[ufrag] == conn)
+//@   ensures nothing-else-is-unregistered-v4: forall u string :: u != ufrag || old(m.connsIPv4[ufrag]) != conn ==> has(m.connsIPv4, u) == old(has(m.connsIPv4, u)) && m.connsIPv4[u] == old(m.connsIPv4[u])
+//@   ensures nothing-else-is-unregistered-v6: forall u string :: u != ufrag || old(m.connsIPv6[ufrag]) != conn ==> has(m.connsIPv6, u) == old(has(m.connsIPv6, u)) && m.connsIPv6[u] == old(m.connsIPv6[u])
 
 //@ func (*udpMuxedConn).getAddresses
 //@   props C12
